@@ -1006,8 +1006,6 @@ class Engine:
         if isinstance(x, (Ptr, PtrIte)) or isinstance(y, (Ptr, PtrIte)):
             if is_c(x): x = self.int2ptr(x)
             if is_c(y): y = self.int2ptr(y)
-            if isinstance(x, Ptr) and isinstance(y, Ptr) and x.obj == y.obj and x.obj != 0:
-                return Ptr(x.obj, simp(z3.If(c, bv(x.off, 64), bv(y.off, 64))))
             return PtrIte(c, x, y)
         if isinstance(x, Undef) and isinstance(y, Undef): return x
         if isinstance(x, Undef) or isinstance(y, Undef):
